@@ -5,6 +5,7 @@ import (
 	"encoding/gob"
 	"fmt"
 	"os"
+	"os/exec"
 	"path/filepath"
 	"runtime"
 	"strings"
@@ -72,7 +73,12 @@ func c15Positional(r *vf.Run, dir string) {
 	hists := []string{"preload-fails-twice", "live-handle-then-failing-open", "two-live-handles-one-failing-open"}
 	for bi := range bases {
 		for _, pos := range []int{0, 1, 7, 1 << 20 /* middle */, -200, -64, -33, -17, -16, -9, -5, -3, -2, -1} {
-			for ki, kind := range []string{"empty", "three-bytes", "rejected-bytes"} {
+			kinds := []string{"empty", "three-bytes", "rejected-bytes"}
+			if pos == 0 || pos == 1<<20 || pos == -1 || pos == -16 {
+				// large values too: a loader may treat values above some size differently
+				kinds = append(kinds, "large-truncated", "large-garbage")
+			}
+			for ki, kind := range kinds {
 				reps := 1
 				if pos < 0 && pos >= -17 {
 					reps = r.Pick(3, 8) // the end of the bucket is where a loader that hands work to helpers finishes
@@ -131,6 +137,21 @@ func c15Positional(r *vf.Run, dir string) {
 				v = []byte{}
 			case "three-bytes":
 				v = []byte{0x3a, 0x30, 0x00}
+			case "large-truncated":
+				// a valid serialised bitmap of twenty 8 KiB containers (164 KB), cut in the middle
+				big := roaring.New()
+				for c := uint32(0); c < 20; c++ {
+					for i := uint32(0); i < 65536; i += 2 {
+						big.Add(c<<16 + i)
+					}
+				}
+				bb, _ := big.ToBytes()
+				v = bb[:len(bb)/2]
+			case "large-garbage":
+				v = make([]byte, 200000)
+				for i := range v {
+					v[i] = byte(i*7 + i>>8)
+				}
 			default:
 				v = []byte{0xde, 0xad, 0xbe, 0xef, 0x01, 0x02, 0x03, 0x04, 0x05, 0x06, 0x07, 0x08}
 			}
@@ -365,4 +386,57 @@ func workerC15GobCount(args []string) int {
 	idx.Close()
 	fmt.Println("OPENED")
 	return 0
+}
+
+// c15ChildProcess: a child process started while the index is open must not keep the file held after Close (a
+// descriptor opened without close-on-exec travels into every child together with its lock).
+func c15ChildProcess(r *vf.Run, dir string) {
+	base := filepath.Join(dir, "child-base.updog")
+	if err := ix.Build(ix.WriterMemFile, base, []oracle.Row{{"a": "x", "b": "1"}, {"a": "y"}, {"b": "2"}}); err != nil {
+		r.Inconclusive("child-process: " + err.Error())
+		return
+	}
+	for _, opt := range c15Options {
+		cid := "child-process/" + opt
+		if !r.Want(cid) {
+			continue
+		}
+		r.Guard(cid, func() {
+			path := filepath.Join(dir, "child-"+opt+".updog")
+			if err := ix.CopyFile(base, path); err != nil {
+				panic(err)
+			}
+			defer os.Remove(path)
+			w := map[string]any{"options": opt, "history": "open, start an unrelated child process, Close, probe the lock while the child is still running"}
+			idx, err, ok := tryOpen(r, cid, path, opt, w)
+			r.Eval(1)
+			if !ok || err != nil {
+				if err != nil {
+					w["error"] = err.Error()
+					r.Violation(cid, "valid-parts-rejected", w)
+				}
+				return
+			}
+			child := exec.Command("sleep", "120")
+			if err := child.Start(); err != nil {
+				idx.Close()
+				r.Inconclusive(cid + ": cannot start a child process: " + err.Error())
+				return
+			}
+			defer func() { _ = child.Process.Kill(); _, _ = child.Process.Wait() }()
+			if cerr := idx.Close(); cerr != nil {
+				w["close"] = cerr.Error()
+				r.Violation(cid, "close-error", w)
+				return
+			}
+			free, perr := mon.LockFree(path)
+			r.Count("lock_probes", 1)
+			r.Count("closes_with_a_child_process_alive", 1)
+			r.Distinct(cid)
+			if perr != nil || !free {
+				w["probe"] = fmt.Sprint(perr)
+				r.Violation(cid, "lock-kept-after-close", w)
+			}
+		})
+	}
 }
